@@ -6,9 +6,9 @@
     the theorems of Properties/C13.v and what ./check runs). *)
 From Coq Require Import ZArith List Bool Lia String Sorted.
 From Low Require Import Lib.MachInt Lib.Bits Lib.BitSeq Lib.Val
-  Model.BitmapNext Model.BitmapNext32 Model.BitmapNextIter Model.BitmapNextReaders Model.BitmapOf
-  Spec.NextSpec Spec.NextTotalSpec
-  Proofs.NextProofs Proofs.NextTotal Proofs.NextLaws Proofs.NextCount Proofs.NextOf Proofs.NextSelect Proofs.NextSlice
+  Model.BitmapNext Model.BitmapNext32 Model.BitmapNextIter Model.BitmapNextReaders Model.BitmapNextSession Model.BitmapOf
+  Spec.NextSpec Spec.NextTotalSpec Spec.NextSessionSpec
+  Proofs.NextProofs Proofs.NextTotal Proofs.NextLaws Proofs.NextCount Proofs.NextOf Proofs.NextSelect Proofs.NextSlice Proofs.NextSession
   Proofs.OfInspect Run.NextWide Run.C13.
 Import ListNotations.
 Open Scope Z_scope.
@@ -202,6 +202,37 @@ Proof.
   rewrite (SliceWalk_exact bm i e) by (try assumption; lia). reflexivity.
 Qed.
 
+Lemma ok_session : op_ok (nth 14 ops_C13_wide (Build_opdef "" (fun _ => VBad) (fun _ _ => false))).
+Proof.
+  intros a. cbn [nth ops_C13_wide op_run op_spec]. unfold fun_spec.
+  destruct a as [|x [|y [|z t]]]; try (right; reflexivity).
+  destruct (as_bm x) as [bm|] eqn:E; [|right; reflexivity].
+  destruct (as_zss y) as [st|]; [|right; reflexivity].
+  destruct (forallb (step_dom (64 * zlen bm)) st) eqn:D; [|right; reflexivity].
+  left. destruct (as_bm_ok _ _ E) as [Hok Hs]. rewrite (Session_exact st bm Hok Hs D). apply c13_val_eqb_refl.
+Qed.
+
+Lemma ok_huge : op_ok (nth 15 ops_C13_wide (Build_opdef "" (fun _ => VBad) (fun _ _ => false))).
+Proof.
+  apply with_bm_i_e_ok. intros bm i e Hok Hs D. apply next_dom_props in D.
+  rewrite NextOneFast_eq, (NextOne_exact bm Hok) by lia. reflexivity.
+Qed.
+
+Lemma ok_realloc : op_ok (nth 16 ops_C13_wide (Build_opdef "" (fun _ => VBad) (fun _ _ => false))).
+Proof.
+  intros a. cbn [nth ops_C13_wide op_run op_spec]. unfold fun_spec.
+  destruct a as [|r [|x [|qa [|y [|qb [|z t]]]]]]; try (right; reflexivity).
+  destruct (as_z r) as [n|]; [|right; reflexivity].
+  destruct (as_bm x) as [bma|] eqn:Ea; [|right; reflexivity].
+  destruct (as_zss qa) as [qsa|]; [|right; reflexivity].
+  destruct (as_bm y) as [bmb|] eqn:Eb; [|right; reflexivity].
+  destruct (as_zss qb) as [qsb|]; [|right; reflexivity].
+  destruct ((0 <=? n) && (n <=? 1000) && forallb (q_dom bma) qsa && forallb (q_dom bmb) qsb) eqn:D; [|right; reflexivity].
+  left. apply andb_true_iff in D. destruct D as [D Db]. apply andb_true_iff in D. destruct D as [_ Da].
+  destruct (as_bm_ok _ _ Ea) as [Hoka Hsa]. destruct (as_bm_ok _ _ Eb) as [Hokb Hsb].
+  rewrite (q_run_spec bma Hoka Hsa qsa Da), (q_run_spec bmb Hokb Hsb qsb Db). apply c13_val_eqb_refl.
+Qed.
+
 (** * the core operations *)
 Lemma opt_all_map_Some {A B} (f : A -> option B) (g : A -> B) l :
   (forall x, In x l -> f x = Some (g x)) -> opt_all (map f l) = Some (map g l).
@@ -274,7 +305,7 @@ Proof.
     + exact ok_core_prev.
     + exact ok_core_ends.
     + exact ok_core_starts.
-  - unfold ops_C13_wide. repeat apply Forall_cons; [| | | | | | | | | | | | | |apply Forall_nil].
+  - unfold ops_C13_wide. repeat apply Forall_cons; [| | | | | | | | | | | | | | | | |apply Forall_nil].
     + exact ok_sparse_next.
     + exact ok_sparse_prev.
     + exact ok_held.
@@ -289,6 +320,9 @@ Proof.
     + exact ok_any_prev.
     + exact ok_of_walk.
     + exact ok_slice_walk.
+    + exact ok_session.
+    + exact ok_huge.
+    + exact ok_realloc.
 Qed.
 
 (** in the words of the driver: a C13 case is never judged MODELBUG *)
